@@ -290,3 +290,202 @@ def same_predicate(e: Optional[ast.AST], cases) -> bool:
         return all(bool(truth_eval(e, lv)) == exp for lv, exp in cases)
     except Unknown:
         return False
+
+
+def windowed_traversal(ctx: Ctx, rule: str) -> None:
+    """a list that is worked off in windows (`for k in range(a, N, S): ... X[k : k + S] ...`) is worked off completely: a == 0, N is
+    `len(X)` of the very list that is sliced and the stride equals the window length.  A bound taken from another quantity (the window
+    width, a count of something else) leaves the tail of the list untouched: folder tasks never started, members never produced."""
+    n = 0
+    for f in ctx.prog.all_funcs:
+        for lp in [x for x in walk(f.node) if isinstance(x, ast.For)]:
+            it = lp.iter
+            if not (isinstance(it, ast.Call) and dotted(it.func) == "range" and len(it.args) == 3 and isinstance(lp.target, ast.Name)):
+                continue
+            k = lp.target.id
+            a, bound, stride = it.args
+            for sl in [x for st in lp.body for x in ast.walk(st) if isinstance(x, ast.Subscript) and isinstance(x.slice, ast.Slice)]:
+                lo, hi = sl.slice.lower, sl.slice.upper
+                if not (isinstance(lo, ast.Name) and lo.id == k and isinstance(hi, ast.BinOp) and isinstance(hi.op, ast.Add)
+                        and any(isinstance(x, ast.Name) and x.id == k for x in (hi.left, hi.right))):
+                    continue
+                n += 1
+                win = hi.right if (isinstance(hi.left, ast.Name) and hi.left.id == k) else hi.left
+                seq = norm(sl.value)
+                b = q.expand_locals(f, bound, keep=[seq] if isinstance(sl.value, ast.Name) else [])
+                whole = isinstance(b, ast.Call) and dotted(b.func) == "len" and len(b.args) == 1 and norm(b.args[0]) == seq
+                from_zero = isinstance(a, ast.Constant) and a.value == 0
+                same_stride = norm(q.expand_locals(f, stride)) == norm(q.expand_locals(f, win))
+                ctx.check(whole and from_zero and same_stride, rule, f, lp, f"{f.qname}: `{seq}` is traversed completely in windows of {norm(win)}",
+                          f"`for {k} in {norm(it)}` works `{seq}` off in windows `{norm(sl)}` but does not run from 0 to `len({seq})` in steps of the window length: the entries "
+                          f"past `{norm(bound)}` are never visited (folder tasks beyond the first batch are not started: their members are silently missing from the "
+                          "extraction, or the stride skips / repeats entries)", construct=f"windowed traversal of {seq}")
+    ctx.floor(rule, n, 3, "windowed list traversals")
+
+
+def field_order_agreement(ctx: Ctx, rule: str) -> None:
+    """fields that the reader of a header section takes from the stream one straight after the other (two consecutive statements
+    `X = read_*(file)` / `d["X"] = read_*(file)` / `self.X = read_*(file)` of one block) are emitted by the section's writer in the same
+    order when it emits both in one block.  sa/layout.py compares multisets per record and so cannot see two fields of the same width
+    that swap places; this rule decides exactly that."""
+    from .. import layout
+
+    def field_of(e: ast.AST) -> Optional[str]:
+        if isinstance(e, ast.Subscript) and isinstance(e.slice, ast.Constant) and isinstance(e.slice.value, str):
+            return e.slice.value
+        if isinstance(e, ast.Attribute):
+            return e.attr
+        if isinstance(e, ast.Name):
+            return e.id
+        return None
+
+    def blocks(fn: ast.AST):
+        for x in ast.walk(fn):
+            for fld in ("body", "orelse", "finalbody"):
+                b = getattr(x, fld, None)
+                if isinstance(b, list) and b and isinstance(b[0], ast.stmt):
+                    yield b
+
+    n = 0
+    for cls_name in layout.SECTIONS + ["SignatureHeader"]:
+        try:
+            c = ctx.prog.cls(cls_name, "archiveinfo")
+        except Exception:
+            continue
+        rd, wr = c.methods.get("_read"), c.methods.get("write")
+        if rd is None or wr is None:
+            continue
+        # writer: per block, the ordered fields written by a primitive
+        wblocks = []
+        for b in blocks(wr.node):
+            seq = []
+            for st in b:
+                if isinstance(st, ast.Expr) and isinstance(st.value, ast.Call) and (attr_tail(st.value) or dotted(st.value.func)) in layout.WRITE_PRIMS \
+                        and len(st.value.args) >= 2:
+                    fl = field_of(st.value.args[1])
+                    if fl is not None:
+                        seq.append((fl, layout.WRITE_PRIMS[attr_tail(st.value) or dotted(st.value.func)], st))
+            if len(seq) >= 2:
+                wblocks.append(seq)
+        for b in blocks(rd.node):
+            prev = None
+            for st in b:
+                cur = None
+                if isinstance(st, (ast.Assign, ast.AnnAssign)) and isinstance(st.value, ast.Call) and (attr_tail(st.value) or dotted(st.value.func)) in layout.READ_PRIMS:
+                    tgt = st.targets[0] if isinstance(st, ast.Assign) else st.target
+                    fl = field_of(tgt)
+                    if fl is not None:
+                        cur = (fl, layout.READ_PRIMS[attr_tail(st.value) or dotted(st.value.func)], st)
+                if prev is not None and cur is not None and prev[1] == cur[1] and prev[0] != cur[0]:
+                    for seq in wblocks:
+                        names = [x[0] for x in seq]
+                        if prev[0] in names and cur[0] in names:
+                            n += 1
+                            i, j = names.index(prev[0]), names.index(cur[0])
+                            ctx.check(i < j, rule, wr, seq[j][2], f"{cls_name}: `{prev[0]}` then `{cur[0]}` on both sides",
+                                      f"{cls_name}._read takes `{prev[0]}` and then `{cur[0]}` from the stream (line {prev[2].lineno}), {cls_name}.write emits `{cur[0]}` first: the two "
+                                      "fields have the same width, so the record still parses - with the values swapped (a complex coder's stream counts the wrong way round: the "
+                                      "header written by an append can no longer be read)", construct=f"{cls_name} field order {prev[0]}/{cur[0]}")
+                prev = cur
+    ctx.floor(rule, n, 2, "pairs of consecutive same-width fields compared between section readers and writers")
+
+
+# locals that are MEANT to travel from one member to the next, each with its reason
+CARRIED_OK = {
+    ("py7zr:Worker._extract_single", "just_check"): "the members without bytes of their own that wait for the next decoded stream to be verified against",
+}
+
+
+def _cfg_parts(n):
+    """(expressions evaluated AT this cfg node, names it binds)"""
+    a = n.ast
+
+    def stores(x):
+        return {y.id for y in ast.walk(x) if isinstance(y, ast.Name) and isinstance(y.ctx, (ast.Store, ast.Del))} if x is not None else set()
+    if n.kind == "stmt":
+        if isinstance(a, (ast.FunctionDef, ast.ClassDef, ast.AsyncFunctionDef)):
+            return [], set()
+        return [a], stores(a)
+    if n.kind == "test":
+        return [a], {x.target.id for x in ast.walk(a) if isinstance(x, ast.NamedExpr)}
+    if n.kind == "iter":
+        return [a.iter], stores(a.target)
+    if n.kind == "with":
+        s = set()
+        for i in a.items:
+            s |= stores(i.optional_vars)
+        return [i.context_expr for i in a.items], s
+    if n.kind == "handler":
+        return ([a.type] if a.type is not None else []), ({a.name} if a.name else set())
+    return [], set()
+
+
+def per_member_values(ctx: Ctx, rule: str) -> None:
+    """what is computed for one member is not used for the next: in every loop over the members of the archive (iterating `...files`,
+    `target_files`, a folder's file list) a local that the loop body assigns is assigned on EVERY path of the iteration before the body reads
+    it.  Locals whose own assignments read them (counters, cursors, `x += ...`) are accumulators and exempt, as are the entries of
+    CARRIED_OK.  A read that can be reached from the loop head without passing an assignment sees the value of the PREVIOUS member: an undated
+    member gets the time stamp of the one before it."""
+    n = 0
+
+    def loads(x):
+        return {y.id for y in ast.walk(x) if isinstance(y, ast.Name) and isinstance(y.ctx, ast.Load)}
+    for f in ctx.prog.all_funcs:
+        if f.module not in ("py7zr", "archiveinfo"):
+            continue
+        fors = [x for x in walk(f.node) if isinstance(x, ast.For)]
+        if not fors:
+            continue
+        cfg = cfg_of(f.node)
+        for lp in fors:
+            itx = norm(q.expand_locals(f, lp.iter))
+            if not any(isinstance(x, (ast.Attribute, ast.Name)) and (x.attr if isinstance(x, ast.Attribute) else x.id) in ("files", "target_files", "file_list", "empty_files")
+                       for x in ast.walk(q.expand_locals(f, lp.iter))):
+                continue
+            head = cfg.by_ast.get(lp)
+            if head is None:
+                continue
+            n += 1
+            inner = {id(x) for st in lp.body for x in ast.walk(st)}
+            body_nodes = [m for m in cfg.nodes if m.ast is not None and id(m.ast) in inner and m.kind in ("stmt", "test", "iter", "with", "handler")]
+            loopvars = {y.id for y in ast.walk(lp.target) if isinstance(y, ast.Name)}
+            assigned = set()
+            for m in body_nodes:
+                assigned |= _cfg_parts(m)[1]
+            bad = False
+            for v in sorted(assigned - loopvars):
+                if (f.qname, v) in CARRIED_OK:
+                    continue
+                acc = False
+                for m in body_nodes:
+                    parts, st = _cfg_parts(m)
+                    if v in st and (isinstance(m.ast, ast.AugAssign) or any(v in loads(p) for p in parts)):
+                        acc = True
+                if acc:
+                    continue
+                seen, work, hits = set(), [s for s in head.succ if s.kind == "body"], []
+                while work:
+                    m = work.pop()
+                    if m.id in seen or m is head:
+                        continue
+                    seen.add(m.id)
+                    if m.ast is not None and m.kind in ("stmt", "test", "iter", "with", "handler"):
+                        if id(m.ast) not in inner:
+                            continue
+                        parts, st = _cfg_parts(m)
+                        if any(v in loads(p) for p in parts):
+                            hits.append(m)
+                        if v in st:
+                            continue
+                    elif m.kind in ("exit", "raise"):
+                        continue
+                    work.extend(m.succ)
+                for h in hits[:1]:
+                    bad = True
+                    ctx.fail(rule, f, h.ast, f"`{v}` is assigned inside the loop over the members (`for {norm(lp.target)} in {norm(lp.iter)}`, line {lp.lineno}) but the read in "
+                             f"`{norm(h.ast)[:80]}` can be reached from the head of the loop without passing an assignment of this iteration: it sees the value left by the PREVIOUS member "
+                             "(a member without a time stamp is given the time of the member before it; a flag or size of one member decides about the next)",
+                             construct=f"{f.name}: {v} carried between members")
+            if not bad:
+                ctx.ok(rule, f"{f.qname}: loop over `{itx[:60]}` (line {lp.lineno}) carries no per-member local into the next iteration")
+    ctx.floor(rule, n, 14, "loops over the members")
